@@ -1,6 +1,6 @@
 #!/bin/bash
 # tools/run_all.sh [seed ...] : runs every claimed check's quick command for the given seeds (default 1), 4 at a time; prints a summary.
-cd /verif
+cd "$(dirname "$(readlink -f "$0")")/.."
 seeds=${@:-1}
 props=$(/venv/bin/python -c "import json;print(' '.join(c['property_id'] for c in json.load(open('MANIFEST.json'))['checks']))")
 mkdir -p build/runall
